@@ -179,7 +179,7 @@ def step (line : String) : String :=
       (removeNastyArc (parseAcc a) (parseLMap m) (parseBool ins) (parseBool del))
   | ["flt", k, run, motifs, gc, s, onlyLast] =>
     let c := parseCfg k run motifs gc
-    showBool c.accepted ++ " " ++ showBool (c.valid (charsOf s) (parseBool onlyLast))
+    if c.accepted then "1 " ++ showBool (c.valid (charsOf s) (parseBool onlyLast)) else "0 -"
   | _ => "bad-op"
 
 partial def loop (h : IO.FS.Stream) (out : IO.FS.Stream) : IO Unit := do
